@@ -565,7 +565,7 @@ func mentionsElement(errText string, names map[string]bool) (string, bool) {
 	return "", false
 }
 
-var serverIndexRe = regexp.MustCompile(`\bserver \d+\b`)
+var serverIndexRe = regexp.MustCompile(`\bservers?[ .]\d+\b`)
 
 // ---- worker ---------------------------------------------------------------
 
